@@ -242,11 +242,11 @@ func OpenInline(cfg config.Config) (Driver, error) {
 	return &inlineDrv{cfg: cfg, db: db}, nil
 }
 
-func (d *inlineDrv) DB() fs_db.DB     { return d.db }
-func (d *inlineDrv) GC() error        { return verif.GC(d.db) }
-func (d *inlineDrv) Roots() []string  { return d.cfg.Storage.RootDirs }
-func (d *inlineDrv) Mode() string     { return "inline" }
-func (d *inlineDrv) Close() error     { return d.db.Close() }
+func (d *inlineDrv) DB() fs_db.DB    { return d.db }
+func (d *inlineDrv) GC() error       { return verif.GC(d.db) }
+func (d *inlineDrv) Roots() []string { return d.cfg.Storage.RootDirs }
+func (d *inlineDrv) Mode() string    { return "inline" }
+func (d *inlineDrv) Close() error    { return d.db.Close() }
 func (d *inlineDrv) Reopen() error {
 	if err := d.db.Close(); err != nil {
 		return err
@@ -312,28 +312,82 @@ func (d *externalDrv) Reopen() error {
 
 // ---------- writes and reads in their variants ----------
 
-// Write stores b under key through one of the three write paths, chosen by variant.
+// dataEOFReader hands out the content in pieces and returns the last piece together with io.EOF,
+// as the io.Reader contract allows (compress/flate and iotest.DataErrReader do).
+type dataEOFReader struct {
+	b     []byte
+	piece int
+}
+
+func (r *dataEOFReader) Read(p []byte) (int, error) {
+	if len(r.b) == 0 {
+		return 0, io.EOF
+	}
+	n := r.piece
+	if n > len(p) {
+		n = len(p)
+	}
+	if n > len(r.b) {
+		n = len(r.b)
+	}
+	copy(p, r.b[:n])
+	r.b = r.b[n:]
+	if len(r.b) == 0 {
+		return n, io.EOF
+	}
+	return n, nil
+}
+
+// Write stores b under key through one of the three write paths, chosen by variant; within a path
+// the variant also selects how the caller behaves where the io contracts leave it free (a reader that
+// delivers the last bytes together with io.EOF, short reads, one write buffer reused for every Write).
 func Write(ctx context.Context, s fs_db.Store, key string, b []byte, variant int) error {
+	if variant < 0 {
+		variant = -variant
+	}
+	sub := variant / 3
 	switch variant % 3 {
 	case 0:
 		return s.Set(ctx, key, b)
 	case 1:
-		return s.SetReader(ctx, key, bytes.NewReader(b))
+		switch sub % 3 {
+		case 0:
+			return s.SetReader(ctx, key, bytes.NewReader(b))
+		case 1:
+			return s.SetReader(ctx, key, &dataEOFReader{b: b, piece: 1 << 30})
+		default:
+			return s.SetReader(ctx, key, &dataEOFReader{b: b, piece: 1 + (sub/3)%4099})
+		}
 	default:
 		f, err := s.Create(ctx, key)
 		if err != nil {
 			return err
 		}
-		// split into non-empty writes whose sizes depend on the variant
+		// split into non-empty writes whose sizes depend on the variant; every second variant copies
+		// each piece into one reused buffer first and scribbles over it after Write returned
 		rest := b
-		step := 1 + (variant/3)%5000
+		step := 1 + sub%5000
+		reuse := sub%2 == 1
+		var buf []byte
 		var wErr error
 		for len(rest) > 0 && wErr == nil {
 			n := step
 			if n > len(rest) {
 				n = len(rest)
 			}
-			_, wErr = f.Write(rest[:n])
+			if reuse {
+				if cap(buf) < n {
+					buf = make([]byte, n)
+				}
+				buf = buf[:n]
+				copy(buf, rest[:n])
+				_, wErr = f.Write(buf)
+				for i := range buf {
+					buf[i] ^= 0xa5
+				}
+			} else {
+				_, wErr = f.Write(rest[:n])
+			}
 			rest = rest[n:]
 			step = step*3 + 1
 		}
